@@ -3,7 +3,7 @@
 R=${BT_REPO:-/repo}
 src=$1; shift
 out=$(mktemp -d /tmp/replay.XXXXXX)
-g++ -std=gnu++17 -O1 -g -DNDEBUG -fsanitize=address,undefined -I$R -I$R/bluetoe/utility/include -I$R/bluetoe/link_layer/include -I$R/bluetoe/sm/include -I$R/tests/test_tools -I$(dirname $0) "$src" "$@" -o $out/replay 2>$out/err || { cat $out/err | head -30; rm -rf $out; exit 3; }
+g++ -std=gnu++17 -O1 -g -DNDEBUG -fsanitize=address,undefined -pthread -I$R -I$R/bluetoe/utility/include -I$R/bluetoe/link_layer/include -I$R/bluetoe/sm/include -I$R/tests/test_tools -I$(dirname $0) "$src" "$@" -o $out/replay 2>$out/err || { cat $out/err | head -30; rm -rf $out; exit 3; }
 $out/replay; rc=$?
 rm -rf $out
 exit $rc
